@@ -56,7 +56,7 @@ static SF_PRIVATE W ;
 void h_open_write (void)
 {	int subformat, endian_bits, rate ;
 	__CPROVER_assume ((subformat & ~SF_FORMAT_SUBMASK) == 0 && (endian_bits & ~SF_FORMAT_ENDMASK) == 0) ;
-	__CPROVER_assume (rate >= 1 && rate <= (1 << 20)) ;	/* larger rates overflow the informational bytes-per-second product in some writers: outside this lemma */
+	__CPROVER_assume (rate >= 1 && rate <= (1 << 19)) ;	/* larger rates overflow the informational bytes-per-second product in some writers: outside this lemma */
 	W.virtual_io = SF_TRUE ; W.file.mode = SFM_WRITE ;
 	W.vio.get_filelen = v_get_filelen ; W.vio.seek = v_seek ; W.vio.read = v_read ; W.vio.write = v_write ; W.vio.tell = v_tell ;
 	W.header.ptr = hbuf ; W.header.len = HDRBUF ; W.sf.seekable = SF_TRUE ;
